@@ -37,7 +37,7 @@ ASSUMPTIONS = [
     "PQR; their failure is outside the statement",
 ]
 BOUND = {
-    "quick": "complete success grid; 11 argument classes; 9 input classes; "
+    "quick": "complete success grid; 10 argument classes; 9 input classes; "
     "26 call sites x {1st, 2nd, last} x 4 exception types x 2 output states "
     "on one structure that reaches every site",
     "thorough": "faults additionally on a second structure (strand + ligand "
@@ -255,8 +255,6 @@ ARG_CLASSES = {
     "neutraln+AMBER": (["--ff=AMBER", "--neutraln"], None),
     "neutralc+CHARMM": (["--ff=CHARMM", "--neutralc"], None),
     "neutraln+TYL06": (["--ff=TYL06", "--neutraln"], None),
-    "neutralc+userff": (["--userff=@u.dat", "--usernames=@u.names",
-                         "--neutralc"], "userff"),
     "userff-without-usernames": (["--userff=@u.dat"], "userff"),
     "missing-userff": (["--userff=/dev/shm/verif-no-such.dat",
                         "--usernames=@u.names"], "userff"),
@@ -277,9 +275,10 @@ def input_classes():
                                      1: {"CG", "CD1", "CD2", "NE1", "CE2",
                                          "CE3", "CZ2", "CZ3", "CH2"},
                                      2: {"CG", "CD", "CE", "NZ"}})
+    # N-terminal residue reduced to its OG: nothing to superpose on
     no_backbone = build.build_peptide(
-        ["ALA", "SER", "GLY"] + ["ALA"] * 12,
-        omit={1: {"N", "CA", "C"}})
+        ["SER", "SER", "GLY"] + ["ALA"] * 12,
+        omit={0: {"N", "CA", "C", "O", "CB"}})
     dat = (engine.REPO / "pdb2pqr/dat/AMBER.DAT").read_text().replace(
         "GLY\tCA\t-0.025200", "GLY\tCA\t-0.325200")
     names = (engine.REPO / "pdb2pqr/dat/AMBER.names").read_text()
